@@ -117,6 +117,9 @@ class Contract:
     # definitional axioms naming a spec-level uninterpreted function (conservative extension): assumed at entry of the
     # function's own verification and at every call site
     self.defines = [Clause(c) for c in g("defines", [])]
+    # axioms of the SPECIFICATION theory (properties of uninterpreted spec functions such as the discrete-log view of a
+    # group; no statement about code): assumed at entry, listed in the evidence
+    self.spec_axioms = [Clause(c) for c in g("spec_axioms", [])]
     # ghost parameters: extra universally quantified symbolic inputs (not real parameters); clauses that mention them
     # go to ghost_requires / ghost_ensures and are never assumed by callers
     self.ghost_params = dict(g("ghost_params", {}))
@@ -165,11 +168,22 @@ class Lemma:
     self.props = set(getattr(cls, "props", []))
     self.tactic = getattr(cls, "tactic", None)
     self.cases = getattr(cls, "cases", None)
+    self.axiom = False
 
 
 def lemma(name):
   def deco(cls):
     LEMMAS[name] = Lemma(name, cls)
+    return cls
+  return deco
+
+
+def spec_axiom(name):
+  """An axiom SCHEMA of the specification theory (a property of uninterpreted spec functions, e.g. the discrete-log view
+  of a group): instantiated like a lemma with lemma('<name>', args...), never proved, listed in the evidence."""
+  def deco(cls):
+    LEMMAS[name] = Lemma(name, cls)
+    LEMMAS[name].axiom = True
     return cls
   return deco
 
